@@ -1,4 +1,5 @@
 import CircBuf.Lemmas.Tie.IterTie
+import CircBuf.Lemmas.NonDefect
 import CircBuf.Props.C08
 /-!
 # C08 — iterators over a range / the whole buffer visit exactly the specified slots: the theorems of `Props/C08.lean`, restated about the *translated source*
